@@ -178,7 +178,11 @@ pub enum Wire { Clear(u8), Garbage, Prot(u32, bool, u8) }
 pub enum Op {
     Keys(usize, u32),
     SendRtp(usize),
-    SendRaw(usize, bool),
+    /// raw `send(buf)`; shape 0: bytes that do not parse, 1: plain RTP, 2: RTP with a two-byte-header extension block
+    /// (`set_extension` refuses it), 3: RTP with a well-formed one-byte block
+    SendRaw(usize, u8),
+    /// `set_abs_send_time_extension_id(Some(3) / None)` — what peer_connection.rs does whenever abs-send-time is negotiated
+    AbsSend(usize, bool),
     SendRtcp(usize),
     SyncBye(usize),
     RecvRtp(usize, Wire, bool),
@@ -194,7 +198,7 @@ impl Op {
             Op::Keys(..) => "install_keys", Op::SendRtp(_) => "send_rtp", Op::SendRaw(..) => "send_raw",
             Op::SendRtcp(_) => "send_rtcp", Op::SyncBye(_) => "send_rtcp_sync", Op::RecvRtp(..) => "recv_rtp",
             Op::RecvRtcp(..) => "recv_rtcp", Op::Bridge(..) => "bridge", Op::ClearBridge(_) => "clear_bridge",
-            Op::Close(_) => "close", Op::Flags(..) => "set_flags",
+            Op::Close(_) => "close", Op::Flags(..) => "set_flags", Op::AbsSend(..) => "set_abs_send_time",
         }
     }
 }
@@ -372,12 +376,21 @@ pub async fn exec(net: &Net, cfg: &Cfg, ops: &[Op]) -> (Outcome, Vec<String>) {
                 ret = Some(sys.tr[*t].send_rtp(local_rtp(*t, sys.seq, sys.n)).await.is_ok());
                 text = format!("sr,{t}");
             }
-            Op::SendRaw(t, parses) => {
+            Op::SendRaw(t, shape) => {
                 sys.seq = sys.seq.wrapping_add(1); sys.n += 1;
-                let b = if *parses { local_rtp(*t, sys.seq, sys.n).marshal().unwrap() } else { vec![0x80, AUDIO_PT, 0, 1] };
+                let mut pk = local_rtp(*t, sys.seq, sys.n);
+                match shape {
+                    2 => pk.header.extension = Some(rustrtc::rtp::RtpHeaderExtension::new(0x1000, vec![5, 1, b'x', 0])),
+                    3 => pk.header.extension = Some(rustrtc::rtp::RtpHeaderExtension::new(0xBEDE, vec![0x51, b'x', b'y', 0])),
+                    _ => {}
+                }
+                let b = if *shape == 0 { vec![0x80, AUDIO_PT, 0, 1] } else { pk.marshal().unwrap() };
                 ret = Some(sys.tr[*t].send(&b).await.is_ok());
-                text = format!("sw,{t},{}", *parses as u8);
+                // model inputs: does the buffer parse; can the header take an abs-send-time element (RFC 8285: the code
+                // writes one-byte elements only, a two-byte-header block cannot take one)
+                text = if *shape <= 1 { format!("sw,{t},{}", (*shape == 1) as u8) } else { format!("sw,{t},1,{}", (*shape != 2) as u8) };
             }
+            Op::AbsSend(t, on) => { sys.tr[*t].set_abs_send_time_extension_id(if *on { Some(3) } else { None }); text = format!("ab,{t},{}", *on as u8); }
             Op::SendRtcp(t) => {
                 ret = Some(sys.tr[*t].send_rtcp(&[RtcpPacket::ReceiverReport(ReceiverReport { sender_ssrc: 0x1000 + *t as u32, report_blocks: vec![] })]).await.is_ok());
                 text = format!("sc,{t}");
@@ -547,7 +560,7 @@ fn sym(k: usize) -> Op {
     match k {
         0 => Op::Keys(0, 0),
         1 => Op::SendRtp(0),
-        2 => Op::SendRaw(0, true),
+        2 => Op::SendRaw(0, 1),
         3 => Op::SendRtcp(0),
         4 => Op::SyncBye(0),
         5 => Op::RecvRtp(0, Wire::Clear(0), false),
@@ -579,9 +592,9 @@ fn rand_op(rng: &mut Rng) -> Op {
     match rng.below(20) {
         0 | 1 => Op::Keys(t, key(rng, t)),
         2 | 3 => Op::SendRtp(t),
-        4 => Op::SendRaw(t, rng.chance(3, 4)),
+        4 => Op::SendRaw(t, *rng.pick(&[1u8, 1, 1, 0, 0, 2, 2, 3])),
         5 | 6 => Op::SendRtcp(t),
-        7 => Op::SyncBye(t),
+        7 => if rng.chance(1, 2) { Op::SyncBye(t) } else { Op::AbsSend(t, rng.chance(2, 3)) },
         8..=11 => { let w = wire(rng, t); Op::RecvRtp(t, w, rng.chance(1, 3)) }
         12 | 13 => { let w = wire(rng, t); Op::RecvRtcp(t, w) }
         14..=16 => {
@@ -696,12 +709,104 @@ async fn race(run: &mut Run, net: &Net, rng: &mut Rng, rounds: usize) {
     }
 }
 
+
+// ---------------------------------------------------------------------------------------------
+// every SRTP profile the session code implements: what a MANDATORY, keyed transport delivers of cleartext / forged input
+// (oracle only; the `gate` stream and the tapped sessions run Aes128Sha1_80)
+
+/// `only`: replay one injection (`profile <name> <label>`)
+async fn profiles(run: &mut Run, net: &Net, only: Option<(&str, &str)>) {
+    for (name, prof, rprof, salt_len) in [("sha1_80", SrtpProfile::Aes128Sha1_80, ProtectionProfile::Aes128CmHmacSha1_80, 14usize),
+            ("sha1_32", SrtpProfile::Aes128Sha1_32, ProtectionProfile::Aes128CmHmacSha1_32, 14), ("gcm", SrtpProfile::AeadAes128Gcm, ProtectionProfile::AeadAes128Gcm, 12)] {
+        if let Some((n, _)) = only { if n != name { continue; } }
+        let tr = RtpTransport::new(net.conn(0), true);
+        let (ltx, mut lrx) = mpsc::channel(64); tr.register_provisional_listener(ltx);
+        let (rtx, mut rrx) = mpsc::channel(64); tr.register_rtcp_listener(rtx);
+        let (tk, mut ts) = keyset(0, 0); let (rk, mut rs) = keyset(0, 1);
+        ts.truncate(salt_len); rs.truncate(salt_len);
+        tr.start_srtp(SrtpSession::new(prof, SrtpKeyingMaterial::new(tk, ts), SrtpKeyingMaterial::new(rk.clone(), rs.clone())).unwrap());
+        let mut enc = Context::new(&rk, &rs, rprof, None, None).unwrap();
+        // (label, datagram, genuine)
+        let mut inj: Vec<(String, Vec<u8>, bool)> = vec![];
+        let idx_e0 = [0u8, 0, 0, 1];
+        for shape in 0..6u8 {
+            let plain = rustrtc::rtp::marshal_rtcp_packets(&shaped_rtcp(0, 100 + shape as u32, shape)).unwrap();
+            // clear RTCP as is, and dressed up as SRTCP with the E bit clear: index only, AEAD layout (16 bytes then the index),
+            // HMAC layout (index then 10 / 4 bytes)
+            let trailers: [(&str, Vec<u8>); 5] = [("bare", vec![]), ("idx", idx_e0.to_vec()), ("tag16-idx", [vec![0x5a; 16], idx_e0.to_vec()].concat()),
+                ("idx-tag10", [idx_e0.to_vec(), vec![0x5a; 10]].concat()), ("idx-tag4", [idx_e0.to_vec(), vec![0x5a; 4]].concat())];
+            for (tn, t) in trailers { inj.push((format!("clear-rtcp{shape}-{tn}"), [plain.clone(), t].concat(), false)); }
+            let (pkt, _) = shaped_rtp(0, 200 + shape as u16, 300 + shape as u32, false, shape);
+            let plain_rtp = pkt.marshal().unwrap();
+            for (tn, t) in [("bare", vec![]), ("tag16", vec![0x5a; 16]), ("tag10", vec![0x5a; 10]), ("tag4", vec![0x5a; 4])] { inj.push((format!("clear-rtp{shape}-{tn}"), [plain_rtp.clone(), t].concat(), false)); }
+        }
+        for n in 0..4u32 {
+            let good = enc.encrypt_rtcp(&rustrtc::rtp::marshal_rtcp_packets(&shaped_rtcp(0, 400 + n, (n % 6) as u8)).unwrap()).unwrap().to_vec();
+            let l = good.len();
+            let mut v = vec![("prot-rtcp-genuine".to_string(), good.clone(), true)];
+            for (fl, at) in [("last-byte", l - 1), ("e-bit-aead-layout", l - 4), ("e-bit-hmac-layout", l - 14), ("middle", l / 2 + 4)] {
+                let mut b = good.clone(); b[at] ^= if fl.starts_with("e-bit") { 0x80 } else { 0x01 }; v.push((format!("prot-rtcp-forged-{fl}"), b, false));
+            }
+            v.push(("prot-rtcp-forged-truncated".into(), good[..l - 4].to_vec(), false));
+            // forged ones first: a genuine datagram delivered afterwards must not make them replays of a known index
+            v.rotate_left(1);
+            inj.extend(v);
+            let (pkt, _) = plain_rtp(0, 500 + n as u16, 500 + n, false);
+            let good = enc.encrypt_rtp(&pkt.marshal().unwrap()).unwrap().to_vec();
+            let l = good.len();
+            let mut v = vec![];
+            for (fl, at) in [("last-byte", l - 1), ("payload", 14usize)] { let mut b = good.clone(); b[at] ^= 0x01; v.push((format!("prot-rtp-forged-{fl}"), b, false)); }
+            v.push(("prot-rtp-forged-truncated".into(), good[..l - 2].to_vec(), false));
+            v.push(("prot-rtp-genuine".to_string(), good, true));
+            inj.extend(v);
+        }
+        let mut mb = Vec::new();
+        let a: SocketAddr = "127.0.0.1:4000".parse().unwrap();
+        let (mut n_gen, mut n_gen_del) = (0u64, 0u64);
+        for (label, bytes, genuine) in inj {
+            if let Some((_, l)) = only { if l != label { continue; } }
+            tr.receive(Bytes::from(bytes.clone()), a, &mut mb).await;
+            let mut sinks = vec![];
+            while lrx.try_recv().is_ok() { sinks.push("listener"); }
+            while rrx.try_recv().is_ok() { sinks.push("rtcp-listener"); }
+            let _ = net.drain(0);
+            if genuine { n_gen += 1; if !sinks.is_empty() { n_gen_del += 1; } }
+            else { for s in &sinks { run.fail(&format!("in:unauthenticated-delivered:{s}:{name}:{label}"), &format!("profile {name} {label}"), &format!("mandatory transport keyed with {name}; datagram {}", crate::hex(&bytes))); } }
+            if only.is_some() { println!("impl: {label} -> delivered to {sinks:?}"); for s in &sinks { if !genuine { println!("ORACLE-FAIL in:unauthenticated-delivered:{s}:{name}:{label}"); } } }
+            run.count(&format!("profile_{name}_injections"));
+        }
+        run.count_n(&format!("profile_{name}_genuine_delivered"), n_gen_del);
+        // the positive control: the reference-encrypted datagrams ARE accepted under this profile (else the stream proves nothing)
+        if only.is_none() && n_gen_del != n_gen { run.fail(&format!("profile:not-checked:{name}"), &format!("profile {name}"), &format!("{n_gen_del} of {n_gen} genuine datagrams delivered")); }
+    }
+}
+
 // ---------------------------------------------------------------------------------------------
 // which transport objects a PeerConnection creates per transport mode (model: `sectionTransportFlags`)
 
-async fn connect_pair(mode: rustrtc::TransportMode, video: bool) -> anyhow::Result<Vec<bool>> {
+/// the configuration fields `start_dtls` / `create_offer` / `build_description` read besides `transport_mode`
+pub const VARIANTS: [&str; 4] = ["default", "latching", "legacy-sip", "mux-negotiate"];
+fn vary(c: &mut rustrtc::RtcConfiguration, variant: &str) {
+    match variant {
+        "latching" => c.enable_latching = true,
+        "legacy-sip" => c.sdp_compatibility = rustrtc::SdpCompatibilityMode::LegacySip,
+        "mux-negotiate" => c.rtcp_mux_policy = rustrtc::RtcpMuxPolicy::Negotiate,
+        _ => {}
+    }
+}
+/// `srtp_required` of every transport object the peers hold — read whether or not the connection came up
+fn pc_flags(pcs: &[&rustrtc::PeerConnection]) -> Vec<bool> {
+    let mut flags = vec![];
+    for pc in pcs {
+        let (held, attached) = pc.verif_rtp_transports();
+        for t in held.iter().chain(attached.iter().flatten()) { flags.push(t.verif_registry_snapshot(&[]).srtp_required); }
+    }
+    flags
+}
+
+async fn connect_pair(mode: rustrtc::TransportMode, video: bool, variant: &str) -> anyhow::Result<Vec<bool>> {
     use rustrtc::{MediaKind, PeerConnection, RtcConfiguration, TransceiverDirection};
-    let mk = || { let mut c = RtcConfiguration::default(); c.transport_mode = mode.clone(); PeerConnection::new(c) };
+    let mk = || { let mut c = RtcConfiguration::default(); c.transport_mode = mode.clone(); vary(&mut c, variant); PeerConnection::new(c) };
     let (pc1, pc2) = (mk(), mk());
     for pc in [&pc1, &pc2] {
         pc.add_transceiver(MediaKind::Audio, TransceiverDirection::SendRecv);
@@ -718,12 +823,11 @@ async fn connect_pair(mode: rustrtc::TransportMode, video: bool) -> anyhow::Resu
     pc2.set_local_description(answer.clone())?;
     if std::env::var("VH_DEBUG_PC").is_ok() { eprintln!("OFFER\n{}\nANSWER\n{}", pc1.local_description().unwrap().to_sdp_string(), answer.to_sdp_string()); }
     pc1.set_remote_description(answer).await?;
-    tokio::try_join!(pc1.wait_for_connected(), pc2.wait_for_connected())?;
-    let mut flags = vec![];
-    for pc in [&pc1, &pc2] {
-        let (held, attached) = pc.verif_rtp_transports();
-        for t in held.iter().chain(attached.iter().flatten()) { flags.push(t.verif_registry_snapshot(&[]).srtp_required); }
-    }
+    let conn = tokio::time::timeout(std::time::Duration::from_secs(if variant == "default" { 25 } else { 6 }), async { tokio::try_join!(pc1.wait_for_connected(), pc2.wait_for_connected()) }).await;
+    let flags = pc_flags(&[&pc1, &pc2]);
+    // the default configuration must connect; under the other configurations the transports that exist are judged either way
+    if variant == "default" || flags.is_empty() { match conn { Ok(r) => { r?; } Err(_) => { pc1.close(); pc2.close(); anyhow::bail!("timeout"); } } }
+    let flags = pc_flags(&[&pc1, &pc2]);
     pc1.close();
     pc2.close();
     Ok(flags)
@@ -733,10 +837,11 @@ async fn connect_pair(mode: rustrtc::TransportMode, video: bool) -> anyhow::Resu
 /// (audio, or audio + video).  (An SDES-mode *answerer* goes to `Failed` on the unchanged tree because the
 /// transport is started — and `setup_sdes` needs the local crypto line — before the answer is set; that is
 /// outside C14 and is reported to the coordinator.)
-async fn answer_sdes_offer(video: bool) -> anyhow::Result<Vec<bool>> {
+async fn answer_sdes_offer(video: bool, variant: &str) -> anyhow::Result<Vec<bool>> {
     use rustrtc::{MediaKind, PeerConnection, RtcConfiguration, SdpType, SessionDescription, TransceiverDirection, TransportMode};
     let mut c = RtcConfiguration::default();
     c.transport_mode = TransportMode::Srtp;
+    vary(&mut c, variant);
     let pc = PeerConnection::new(c);
     pc.add_transceiver(MediaKind::Audio, TransceiverDirection::SendRecv);
     if video { pc.add_transceiver(MediaKind::Video, TransceiverDirection::SendRecv); }
@@ -757,9 +862,10 @@ a=rtpmap:96 VP8/90000\r\na=sendrecv\r\n");
     }
     let answer = SessionDescription::parse(SdpType::Answer, &sdp)?;
     pc.set_remote_description(answer).await?;
-    pc.wait_for_connected().await?;
-    let (held, attached) = pc.verif_rtp_transports();
-    let flags = held.iter().chain(attached.iter().flatten()).map(|t| t.verif_registry_snapshot(&[]).srtp_required).collect();
+    let conn = tokio::time::timeout(std::time::Duration::from_secs(if variant == "default" { 25 } else { 6 }), pc.wait_for_connected()).await;
+    let flags = pc_flags(&[&pc]);
+    if variant == "default" || flags.is_empty() { match conn { Ok(r) => { r?; } Err(_) => { pc.close(); anyhow::bail!("timeout"); } } }
+    let flags = pc_flags(&[&pc]);
     pc.close();
     Ok(flags)
 }
@@ -769,13 +875,14 @@ async fn pc_modes(run: &mut Run) {
     // (mode, name, shape): "pair" = two rustrtc peers (offerer + answerer), "canned" = SDES offerer against a SIP-style answer
     for (mode, name, shape) in [(TransportMode::WebRtc, "webrtc", "pair"), (TransportMode::Srtp, "srtp", "pair"),
                                 (TransportMode::Srtp, "srtp", "canned"), (TransportMode::Rtp, "rtp", "pair")] {
-        for video in [false, true] {
-            let case = format!("mode {name} {shape} {}", if video { "audio+video" } else { "audio" });
+        for variant in VARIANTS { for video in [false, true] {
+            let case = format!("mode {name} {shape} {}{}", if video { "audio+video" } else { "audio" }, if variant == "default" { String::new() } else { format!(" config:{variant}") });
             let mut res: Result<Vec<bool>, String> = Err("not run".into());
             for _attempt in 0..4 {
-                let fut = async { if shape == "canned" { answer_sdes_offer(video).await } else { connect_pair(mode.clone(), video).await } };
+                let fut = async { if shape == "canned" { answer_sdes_offer(video, variant).await } else { connect_pair(mode.clone(), video, variant).await } };
                 match tokio::time::timeout(std::time::Duration::from_secs(30), fut).await {
                     Ok(Ok(f)) if !f.is_empty() => { res = Ok(f); break; }
+                    _ if variant != "default" && _attempt >= 1 => { res = Err("no transport under this configuration".into()); break; }
                     Ok(Ok(_)) => { run.count("pc_connect_attempt_no_transport"); res = Err("connected but no RtpTransport was created".into()); }
                     Ok(Err(e)) => { run.count("pc_connect_attempt_failed"); res = Err(e.to_string()); }
                     Err(_) => { run.count("pc_connect_attempt_timeout"); res = Err("timeout".into()); }
@@ -792,9 +899,10 @@ async fn pc_modes(run: &mut Run) {
                     }
                 }
                 // the only tie of the per-mode transport table must not disappear silently
+                Err(_) if variant != "default" => run.count(&format!("pc_config_variant_without_transport:{name}:{shape}:{variant}")),
                 Err(e) => run.fail(&format!("mode:not-checked:{name}:{shape}"), &case, &format!("4 connection attempts failed, last: {e}")),
             }
-        }
+        } }
     }
 }
 
@@ -1223,6 +1331,25 @@ pub fn run(args: &Args) {
                 }
                 return;
             }
+            if let Some(rest) = case.strip_prefix("profile ") {
+                let f: Vec<&str> = rest.split_whitespace().collect();
+                profiles(&mut run, &net, Some((f[0], f.get(1).copied().unwrap_or("")))).await;
+                return;
+            }
+            if let Some(rest) = case.strip_prefix("mode ") {
+                // `mode <name> <pair|canned> <audio|audio+video> [config:<variant>]`
+                let f: Vec<&str> = rest.split_whitespace().collect();
+                let mode = match f[0] { "srtp" => rustrtc::TransportMode::Srtp, "rtp" => rustrtc::TransportMode::Rtp, _ => rustrtc::TransportMode::WebRtc };
+                let video = f.get(2) == Some(&"audio+video");
+                let variant = f.get(3).and_then(|v| v.strip_prefix("config:")).unwrap_or("default");
+                let r = if f.get(1) == Some(&"canned") { answer_sdes_offer(video, variant).await } else { connect_pair(mode, video, variant).await };
+                match r {
+                    Ok(flags) => { println!("impl: srtp_required of the transports held/attached: {flags:?}");
+                        if f[0] != "rtp" && flags.iter().any(|x| !*x) { println!("ORACLE-FAIL mode:non-mandatory-transport-in-{}-mode {flags:?}", f[0]); } }
+                    Err(e) => println!("session failed: {e}"),
+                }
+                return;
+            }
             let (cfg, ops) = parse_case(case);
             let (out, _) = exec(&net, &cfg, &ops).await;
             println!("impl: {}", out.events.join(" "));
@@ -1246,6 +1373,20 @@ pub fn run(args: &Args) {
             }
             run.count_n(&format!("exhaustive_len{len}_req{}{}", r0 as u8, r1 as u8), total as u64);
         }
+        // (1b) raw `send` and the abs-send-time id: all sequences of length 4 over 10 symbols (keys usable / unusable, id on / off,
+        //      the four raw buffer shapes, send_rtp, close) for a mandatory and a non-mandatory source
+        let rsym = |k: usize| match k { 0 => Op::Keys(0, 0), 1 => Op::Keys(0, 5), 2 => Op::AbsSend(0, true), 3 => Op::AbsSend(0, false),
+            4 => Op::SendRaw(0, 0), 5 => Op::SendRaw(0, 1), 6 => Op::SendRaw(0, 2), 7 => Op::SendRaw(0, 3), 8 => Op::SendRtp(0), _ => Op::Close(0) };
+        for r0 in [true, false] {
+            let cfg = Cfg { req: [r0, false, false], obs: [true, false, false], lis: [false; NT], rl: [false; NT] };
+            for idx in 0..10usize.pow(4) {
+                let mut k = idx;
+                let mut ops = vec![];
+                for _ in 0..4 { ops.push(rsym(k % 10)); k /= 10; }
+                emit(&mut run, &net, &cfg, &ops).await;
+            }
+            run.count_n(&format!("exhaustive_raw_send_len4_req{}", r0 as u8), 10_000);
+        }
         // (2) random longer sequences over the full op set on three transports (video target, re-keying,
         //     forged tags, garbage, wrong keys, bridges among all transports incl. self-bridges)
         let mut rng = Rng::new(args.seed);
@@ -1262,6 +1403,8 @@ pub fn run(args: &Args) {
             emit(&mut run, &net, &cfg, &ops).await;
         }
         run.count_n("random_sequences", nrand);
+        // (2b) the three SRTP profiles: cleartext / forged input on a mandatory keyed transport, oracle only
+        profiles(&mut run, &net, None).await;
         // (3) racing clause, oracle only
         race(&mut run, &net, &mut rng, if args.tier_thorough { 2000 } else { 300 }).await;
         run.count_n("late_datagrams", net.late.get());
@@ -1293,7 +1436,7 @@ pub fn parse_case(s: &str) -> (Cfg, Vec<Op>) {
         let f: Vec<&str> = t.split(',').collect();
         let n = |i: usize| f[i].parse::<usize>().unwrap();
         ops.push(match f[0] {
-            "k" => Op::Keys(n(1), n(2) as u32), "sr" => Op::SendRtp(n(1)), "sw" => Op::SendRaw(n(1), f[2] == "1"),
+            "k" => Op::Keys(n(1), n(2) as u32), "sr" => Op::SendRtp(n(1)), "sw" => Op::SendRaw(n(1), if f[2] != "1" { 0 } else if f.len() < 4 { 1 } else if f[3] == "1" { 3 } else { 2 }), "ab" => Op::AbsSend(n(1), f[2] == "1"),
             "sc" => Op::SendRtcp(n(1)), "sb" => Op::SyncBye(n(1)),
             "rr" => Op::RecvRtp(n(1), wire(f[2]), f[3] == "1"), "rc" => Op::RecvRtcp(n(1), wire(f[2])),
             "br" => Op::Bridge(n(1), n(2), if f[3] == "-" { None } else { Some(n(3)) }),
